@@ -6057,6 +6057,16 @@ impl WalStorePort for FilesystemWalStore {
     }
 
     fn read_snapshot(&self) -> Result<WalStoreSnapshot, WalStoreError> {
+        // A torn partial record is an uncommitted tail too: a snapshot cannot carry it, so refuse
+        // instead of presenting the segment as clean to trusted local recovery.
+        for path in segment_paths(&self.root)? {
+            let (_, _, torn_tail) = read_segment_file(&path)?;
+            if torn_tail {
+                return Err(WalStoreError::SegmentHasUncommittedTail(parse_segment_id(
+                    &path,
+                )?));
+            }
+        }
         let (frames, commits, _) = read_filesystem_segments(&self.root)?;
         Ok(WalStoreSnapshot { frames, commits })
     }
